@@ -65,6 +65,7 @@ var errExceptions = []errFlowException{
 	{"p2p.sendMessage", "invoke:SetWriteDeadline", "the same step written for the write side only"},
 	{"sync.(*Syncer).networkHead", "syncHead[H]).Head#1", "by design (C19.b failed-request-keeps-head): when the request for a more recent head fails, the current subjective head is returned with a nil error"},
 	{"sync.(*Syncer).networkHead", "incomingNetworkHead", "by design (C19.b): a refused soft-failing head leaves the subjective head unchanged, returned with a nil error"},
+	{"sync.(*Syncer).Head", "incomingNetworkHead", "by design: whether the candidate was adopted does not matter to the caller as long as the head re-read afterwards is valid — C19.b expired-head-not-returned requires that it is handed out with a nil error only when it is not expired"},
 	{"sync.(*Syncer).Start$1", "subjectiveTail", "by design: the gossip validator triggers pruning lazily; a failed tail renewal is logged and does not invalidate the head that was just verified and adopted"},
 	{"sync.(*Syncer).subjectiveHead", "localHead#1", "the `expired` case is tested first; localHead returns the zero header with every error and a zero header is never expired (C19.d zero-not-expired), so a failed read cannot take that branch"},
 }
